@@ -1,9 +1,18 @@
 From Coq Require Import ZArith List.
 From Coq Require Extraction ExtrOcamlBasic ExtrOcamlZBigInt.
 From Gabi Require Import Val Dispatch.
+From Gabi Require ModArith Sha256 Bytes.
 Extraction Language OCaml.
 (* bitwise operators on Z: used only by Sha256.v on non-negative 32-bit words *)
 Extract Constant Z.land => "Big_int_Z.and_big_int".
 Extract Constant Z.lor => "Big_int_Z.or_big_int".
 Extract Constant Z.lxor => "Big_int_Z.xor_big_int".
+(* modular exponentiation: GMP's powm instead of the extracted square-and-multiply (Zpow_mod);
+   same function for every modulus except 0 with a huge exponent, which raises *)
+Extract Constant ModArith.powx => "Zhelp.powx".
+(* SHA-256 on native machine words; cross-checked against the plain extraction on every run *)
+Extract Constant Sha256.sha256_words => "Zhelp.sha256_words".
+(* bit length and big-endian bytes of an integer via GMP *)
+Extract Constant ModArith.bitlen => "Zhelp.bitlen".
+Extract Constant Bytes.be_bytes => "Zhelp.be_bytes".
 Extraction "model.ml" dispatch.
